@@ -12,6 +12,10 @@ mod evaluation;
 mod transposition_table;
 mod repetition_table;
 
+#[cfg(jence_verif)]
+#[allow(dead_code, unused_imports)]
+mod verif_driver { include!(concat!(env!("JENCE_VERIF_DRIVER_DIR"), "/driver.rs")); }
+
 use core::panic;
 use std::{io::{self}, process, time::SystemTime};
 
@@ -31,6 +35,9 @@ use transposition_table::*;
 use repetition_table::*;
 
 fn main() {
+    #[cfg(jence_verif)]
+    if verif_driver::run_if_requested() { return; }
+
     let io_receiver = IoWrapper::init();
 
     let mut game = Game::new_from_start_pos();
